@@ -394,6 +394,49 @@ theorem tie_export_tree : ∀ curEuid tgtEuid : Bool,
        else if tgtEuid then { writes := [], res := "const0", asked := [], exit := "end" }
        else { writes := [("ob->uid", "current_object->euid")], res := "const1", asked := [], exit := "end" }) := by decide
 
+/-- **f_export_uid = `doExport`, for every world, caller and registered target**: the regenerated tree, with its atoms read off the
+    two objects, raises the error exactly when the model does, hands back 1 exactly when the model does, and writes - the
+    target's uid := the caller's euid - exactly when the model changes the world (in that way) -/
+theorem tie_export_semantics (w : World) (A T : Obj) (t : Oid) (hT : getO w.objs t = some T) :
+    let l := exportTree A.euid.isSome T.euid.isSome
+    (l.exit = "error:error" ↔ (doExport w A t).2.2.2 = .err .exportZero) ∧
+    (l.res = "const1" ↔ (doExport w A t).2.2.2 = .int 1) ∧
+    (l.res = "const0" ↔ (doExport w A t).2.2.2 = .int 0) ∧
+    (l.writes = [("ob->uid", "current_object->euid")] → (doExport w A t).1.objs = setO w.objs { T with uid := A.euid }) ∧
+    (l.writes = [] → (doExport w A t).1.objs = w.objs) := by
+  simp only [tie_export_tree]
+  unfold doExport
+  simp only [hT]
+  cases hA : A.euid <;> cases hTe : T.euid <;> simp
+
+/-- **f_seteuid(number) = `doSeteuidInt`**: bad argument exactly for a non-zero number; otherwise result 1 and the own euid
+    cleared - the only write - without anybody being asked -/
+theorem tie_seteuid_int_semantics (w : World) (A : Obj) (n : Int) (x y z u : Bool) :
+    let l := seteuidTree true (decide (n ≠ 0)) x y z u
+    (l.exit = "error:bad_arg" ↔ (doSeteuidInt w A n).2.2.2 = .err .badArg) ∧
+    (l.writes = [("current_object->euid", "0")] ↔ (doSeteuidInt w A n).1.objs = setO w.objs { A with euid := none } ∧
+      (doSeteuidInt w A n).2.2.2 = .int 1) ∧
+    l.asked = [] := by
+  simp only [tie_seteuid_tree]
+  unfold doSeteuidInt
+  by_cases hn : n = 0 <;> simp [hn]
+
+/-- **f_seteuid(string) = `doSeteuidStr`** for every master verdict that is not an error (an error unwinds before the test):
+    the euid is written - to the argument, after valid_seteuid was asked - exactly when the model sets it (`Ans.approved`),
+    and 0 is handed back without a write exactly when the model refuses -/
+theorem tie_seteuid_str_semantics (pol : Policy) (i : Nat) (w : World) (A : Obj) (s : Name) (h : pol.vs i A.oid s ≠ .err) (x : Bool) :
+    let a := pol.vs i A.oid s
+    let l := seteuidTree false x false true (ansIsNumber a) (ansNumber a)
+    l.asked = ["valid_seteuid"] ∧
+    (l.writes = [("current_object->euid", "add_uid(sp->u.string)")] ↔
+      (doSeteuidStr pol i w A s).1.objs = setO w.objs { A with euid := some s } ∧ (doSeteuidStr pol i w A s).2.2.2 = .int 1) ∧
+    (l.writes = [] ↔ (doSeteuidStr pol i w A s).1.objs = w.objs ∧ (doSeteuidStr pol i w A s).2.2.2 = .int 0) := by
+  have hv := tie_seteuid_verdict (pol.vs i A.oid s) h
+  simp only [tie_seteuid_tree, hv]
+  unfold doSeteuidStr
+  simp only [h, if_false]
+  cases hap : (pol.vs i A.oid s).approved <;> simp [hap]
+
 /-- reload_object: euid := 0 BEFORE create() runs again, the uid is not touched (`doReload`, `execReload`) -/
 theorem tie_reload_tree :
     reloadTree true = { writes := [("obj->euid", "0"), ("call_create", "call_create(obj, 0)")], res := "", asked := [], exit := "end" } ∧
